@@ -137,6 +137,17 @@ class C17(CheckBase):
                 # so by the "a volume ends where the next one starts" rule the target volume is empty
                 starts.insert(tv + 1, starts[tv])
                 ends.insert(tv + 1, ends[tv])
+                degenerate = True
+            else:
+                degenerate = False
+            if len(starts) > 1 and not degenerate and rng.chance(0.4):
+                # volume letters need not be laid out in alphabetical order: A may sit above B.  A volume ends where
+                # the next one *on the disc* starts, whatever its letter
+                regions = list(zip(starts, ends))
+                rng.shuffle(regions)
+                starts = [a for a, b in regions]
+                ends = [b for a, b in regions]
+                tv = rng.below(len(starts))
             vols = []
             for i in range(len(starts)):
                 size = (ends[i] - starts[i]) * 18
